@@ -398,6 +398,11 @@ extern "C" int misc()
       const char* f = a.find((const char*)b, (usize)st); const char* base = a.data->str;
       vf_assert(first < 0 ? f == 0 : f == base + first, "find(str, start) == model");
     }
+    else
+    { // the empty needle occurs at every position up to and including the end
+      const char* f = a.find((const char*)b, (usize)st); const char* base = a.data->str;
+      vf_assert(st <= ma.n ? f == base + st : f == 0, "find(\"\", start) == start position while start <= length()");
+    }
     int firstOf = -1; for(unsigned j = st; j < ma.n; ++j) { bool in = false; for(unsigned l = 0; l < mb.n; ++l) in = in | (ma.v[j] == mb.v[l]); if(in) { firstOf = j; break; } }
     const char* g = a.findOneOf((const char*)b, (usize)st); const char* base2 = a.data->str;
     vf_assert(firstOf < 0 ? g == 0 : g == base2 + firstOf, "findOneOf(chars, start) == model");
